@@ -48,11 +48,99 @@ def run(db, rep, tier):
     rep.rule("R7-state-always", "a flow updates its connection state from EVERY TCP segment: update_state() is not guarded by anything but the "
                                 "presence of a TCP layer (ignoring a direction's data must not hide its SYN / FIN / RST)", 1)
     r6_state(db, rep)
+    rep.rule("R8-sweep", "every TCP packet - whatever it does to its own stream - reaches the keep-alive test that times out OTHER idle "
+                         "streams: no normal path from the stream look-up to the end of process_packet avoids it", 1)
+    r8_sweep(db, rep, pp)
+    rep.rule("R9-family-siblings", "the IPv4 and the IPv6 branch of the flow extractors build their Flow from the same address / port / "
+                                   "sequence-number accessors", 2)
+    r9_siblings(db, rep)
     rep.explanation = ("Decides the structural clauses of C07 by path rules on the clang CFG and by truth tables compared with "
                        "the formulas the property text fixes (flow states and flags are touched only through ==/has_flags, so "
                        "the tables are complete). The equality of the callback trace with a reference connection table over "
                        "arbitrary interleavings is not decided.")
     rep.assumptions += ["user callbacks do not re-enter the follower"]
+
+
+def r8_sweep(db, rep, pp):
+    g = cfg.FnCFG(pp)
+    finds = [n for n in facts.fn_nodes(pp) if n["k"] == "CXXMemberCallExpr" and n.get("cname") == "find" and
+             "streams_" in facts.expr_str(cfg.receiver(n))]
+    if not finds:
+        rep.analysis_broken("process_packet: the stream look-up (streams_.find) was not found")
+        return
+    tests = []
+    for b in g.blocks.values():
+        c = g.idx.get(b.get("cond")) if b.get("cond") is not None else None
+        if c is not None and "last_cleanup_" in facts.deep_text(db, pp, c):
+            tests.append(g.pos(c))
+    # ... or calls of a member that makes the test / the sweep itself (`cleanup_if_due(ts)`)
+    sweepers = set()
+    for h in db.functions.values():
+        if h.get("rec") == pp.get("rec") and h.get("body") and h is not pp:
+            if h["qual"].endswith("::cleanup_streams") or any(
+                    x["k"] == "CXXMemberCallExpr" and x.get("cname") == "cleanup_streams" for x in facts.fn_nodes(h)):
+                sweepers.add(h["id"])
+    tests += [g.pos(n) for n in facts.fn_nodes(pp) if n["k"] == "CXXMemberCallExpr" and n.get("callee") in sweepers]
+    tests = [t for t in tests if t]
+    key = "process_packet:sweep"
+    if not tests:
+        rep.violation("R8-sweep", key, facts.loc(pp), "process_packet never tests the keep-alive deadline: idle streams are never timed out")
+        return
+    w = g.reaches_exit_avoiding(g.pos(finds[0]), tests, normal_only=True)
+    if w is None:
+        rep.ok("R8-sweep", key, facts.loc(pp, finds[0]), "every normal path from the look-up passes one of the %d keep-alive tests" % len(tests))
+    else:
+        rets = [n for n in facts.fn_nodes(pp) if n["k"] == "ReturnStmt" and g.pos(n) and g.pos(n)[0] in w]
+        rep.violation("R8-sweep", key, facts.loc(pp, rets[0] if rets else finds[0]),
+                      "a path from the stream look-up leaves process_packet without testing the keep-alive deadline (through the return at "
+                      "line %s): when the packet that makes the sweep due takes that path, idle connections are not timed out then, and an "
+                      "idle connection whose next segment arrives first is revived instead of being reported as TIMEOUT"
+                      % (rets[0].get("l") if rets else "?"))
+
+
+def r9_siblings(db, rep):
+    import re
+    n = 0
+    for nm in ("extract_client_flow", "extract_server_flow"):
+        fs = [f for fid, f in db.functions.items() if fid.startswith("Tins::TCPIP::Stream::%s(" % nm) and f.get("body")]
+        if not fs:
+            continue
+        f = fs[0]
+        locals_ = dict((x["var"], x.get("name")) for x in facts.fn_nodes(f) if x["k"] == "VarDecl" and x.get("name"))
+        forms = []
+        for r in facts.fn_nodes(f):
+            if r["k"] != "ReturnStmt" or not r.get("c"):
+                continue
+            for x in facts.walk(r):
+                if x["k"] in ("CXXConstructExpr", "CXXTemporaryObjectExpr") and (x.get("crec") or "").endswith("::Flow") and len(x.get("c", [])) >= 3:
+                    args = []
+                    for a in x["c"]:
+                        t = facts.expr_str(a)
+                        # the address-family object is a local of its own in each branch: its name does not matter
+                        for v, name in locals_.items():
+                            if name and any(y["k"] == "DeclRefExpr" and y.get("var") == v for y in facts.walk(a)) and \
+                                    "IP" in ((facts.tyi(f, next(z for z in facts.fn_nodes(f) if z["k"] == "VarDecl" and z.get("var") == v).get("t")) or {}).get("s") or ""):
+                                t = re.sub(r"\b%s\b" % re.escape(name), "$ip", t)
+                        args.append(t)
+                    forms.append((tuple(args), r))
+                    break
+        n += 1
+        key = "Stream::%s" % nm
+        if len(forms) < 2:
+            rep.ok("R9-family-siblings", key, facts.loc(f), "one Flow construction serves both address families")
+            continue
+        ref = forms[0][0]
+        bad = [(a, r) for a, r in forms[1:] if a != ref]
+        if bad:
+            k_ = next(i for i in range(min(len(ref), len(bad[0][0]))) if ref[i] != bad[0][0][i]) if len(ref) == len(bad[0][0]) else 0
+            rep.violation("R9-family-siblings", key, facts.loc(f, bad[0][1]),
+                          "%s builds the flow from (%s) for one address family and from (%s) for the other: argument %d differs, so connections "
+                          "of one family start from another sequence number / endpoint than their twins" %
+                          (nm, ", ".join(ref), ", ".join(bad[0][0]), k_ + 1))
+        else:
+            rep.ok("R9-family-siblings", key, facts.loc(f), "%d branches build Flow(%s)" % (len(forms), ", ".join(ref)))
+    if n < 2:
+        rep.analysis_broken("Stream::extract_client_flow / extract_server_flow not found (%d)" % n)
 
 
 # ---------------------------------------------------------------------------
